@@ -1803,13 +1803,20 @@ func buildCache(typ reflect.Type, cache map[string][]int, parent []int) {
 		index []int
 	}
 	current := []embedded{{typ, parent}}
+	expanded := map[reflect.Type]bool{typ: true}
 	for len(current) > 0 {
 		var next []embedded
 		for _, e := range current {
 			numFields := e.typ.NumField()
 			for i := 0; i < numFields; i++ {
 				field := e.typ.Field(i)
-				embeddedStruct := field.Anonymous && field.Type.Kind() == reflect.Struct
+				// fields are promoted through an embedded pointer to a struct just as through
+				// an embedded struct (a nil pointer on the way is reported by fieldByIndex)
+				fieldType := field.Type
+				if field.Anonymous && fieldType.Kind() == reflect.Ptr {
+					fieldType = fieldType.Elem()
+				}
+				embeddedStruct := field.Anonymous && fieldType.Kind() == reflect.Struct
 				if field.PkgPath != "" && !embeddedStruct {
 					// field is unexported, skip
 					continue
@@ -1822,8 +1829,9 @@ func buildCache(typ reflect.Type, cache map[string][]int, parent []int) {
 				if _, shallower := cache[field.Name]; !shallower && field.PkgPath == "" {
 					cache[field.Name] = index
 				}
-				if embeddedStruct {
-					next = append(next, embedded{field.Type, index})
+				if embeddedStruct && !expanded[fieldType] {
+					expanded[fieldType] = true
+					next = append(next, embedded{fieldType, index})
 				}
 			}
 		}
